@@ -338,6 +338,7 @@ def nested_resume(h, k):
 def mon_c08(h, sc, obs):
     out = []
     facts = model_facts(sc)
+    app_pk = {p_['name']: p_.get('run_as', 'msg') for p_ in sc.get('packages') or []}
     final = h.final_tasks()
     ade = h.actions_during_exec()
     chans = sc.get('channels') or [{'id': 'main'}]
@@ -453,6 +454,8 @@ def mon_c08(h, sc, obs):
                 seen.add(m['id'])
                 ms.append(m)
         kind, uses, nid = t['kind'], t['uses'], t['nid']
+        # packages registered by the application behave like the built-in act of their run mode
+        uses = {'irq': IRQ, 'msg': MSG}.get(app_pk.get(uses), uses)
         sts = [s for _, s in reached.get(k, [])]
         vis = kind in ('workflow', 'step') or (kind == 'act' and uses == IRQ)
         created = [m for m in ms if m['state'] == 'created']
